@@ -13,6 +13,8 @@ for d in sorted(glob.glob('/verif/seeded/*')):
             sig = re.sub(r'^\d+\s+', '', v['signatures'].split(';')[0].strip())
             det.append("%s (`%s`)" % (k, sig[:70]))
     none = "**none** (outside the property's input domain: %s)" % m['domain_note'].split(';')[0] if m.get('in_property_domain') is False else "**none**"
+    if not det and m.get('thorough_checks'):
+        none = "quick tier: none; **thorough tier**: " + "; ".join("%s (`%s`, %s)" % (k, v['signatures'][:60], v.get('space', '')) for k, v in m['thorough_checks'].items())
     rows.append("| %s | %s | %s | %s |" % (m['id'], title.replace('|', '/'), m.get('demo_features', '').replace('--features ', '') or '—', "; ".join(det) or none))
 print("| id | change | features needed | caught by (quick tier; first signature) |")
 print("|---|---|---|---|")
